@@ -356,5 +356,8 @@ P("C19", ["LC.Props.C19"],
   "arguments with -json -include_text; stdout lines (as a multiset), exit status and JSON Text compared with in-process "
   "library results. distinct = (flags, files); non-trivial = at least one match",
   "results_schedule_independent (the multiset of result lines does not depend on worker order), header_filter, exit_iff, "
-  "readLines_spec / readLines_short. Process, file system and JSON encoding are outside the model.",
-  ["OS process/exit codes, filepath.Walk, encoding/json"], trusted=V1_TB)
+  "readLines_spec / readLines_short; the worker pool's shutdown protocol: the order of a worker's deferred actions is "
+  "regenerated from the AST (defer_order_current) and no_send_after_close proves that with this order no execution, for any "
+  "number of workers and any interleaving, sends on the closed task channel (old_order_can_panic: the previous order does). "
+  "Process, file system and JSON encoding are outside the model.",
+  ["OS process/exit codes, filepath.Walk, encoding/json"], trusted=V1_TB, regen=["cliprotocol"])
